@@ -137,9 +137,10 @@ def times_to_json(a):
     if arr.dtype.kind == "M":
         ns = arr.astype("datetime64[ns]").astype("int64").ravel()
         nat = np.iinfo("int64").min
-        return [None if int(v) == nat else (int(v) // 10**9 if v % 10**9 == 0 else int(v) / 1e9) for v in ns]
+        # fractional seconds rounded to the microsecond: float <-> ns conversions in file readers are not exact to the ns
+        return [None if int(v) == nat else (int(v) // 10**9 if v % 10**9 == 0 else round(int(v) / 1e9, 6)) for v in ns]
     if arr.dtype.kind in "fiu":
-        return [None if v != v else (int(v) if float(v).is_integer() else float(v)) for v in arr.astype("float64").ravel()]
+        return [None if v != v else (int(v) if float(v).is_integer() else round(float(v), 6)) for v in arr.astype("float64").ravel()]
     if arr.dtype.kind == "O":
         import pandas as pd
 
@@ -156,7 +157,11 @@ def anyarray_to_json(x):
     arr = np.asarray(np.ma.getdata(x))
     if arr.dtype.kind in "Mm":
         return {"t": times_to_json(x)}
-    if arr.dtype.kind in "fiub":
+    if arr.dtype.kind in "iu":
+        # integers exactly (a round trip through float64 would hide anything beyond 2**53)
+        m = np.ma.getmaskarray(x).ravel() if isinstance(x, np.ma.MaskedArray) else None
+        return {"i": [None if (m is not None and m[i]) else int(v) for i, v in enumerate(arr.ravel().tolist())]}
+    if arr.dtype.kind in "fb":
         return {"f": floats_to_json(x)}
     return {"o": [repr(v) for v in arr.ravel().tolist()]}
 
